@@ -179,7 +179,7 @@ def shard(col, module, mode, pop_bound, limit, n_groups, variants):
 
 def run(ctx):
     quick = ctx.quick
-    modules = ["numeric", "containers", "shapes", "strings", "raising", "nested"]
+    modules = ["numeric", "containers", "shapes", "strings", "raising", "nested", "excs"]
     if not quick:
         modules += ["enums", "lambdas", "floats"]
     variants_q = [(False, False, True), (True, False, False), (False, True, True)]
